@@ -24,7 +24,7 @@ func gConfigs() []gconfig {
 	for k := 1; k <= 2; k++ {
 		cs = append(cs, gconfig{Sender: true, SendFailAt: k}, gconfig{Sender: true, GateableAt: k})
 	}
-	cs = append(cs, gconfig{Sender: false, GateableAt: 1}, gconfig{Sender: true, DefaultExp: true})
+	cs = append(cs, gconfig{Sender: false, GateableAt: 1}, gconfig{Sender: true, DefaultExp: true}, gconfig{Sender: true, CancelAtSend: 1})
 	return cs
 }
 
@@ -54,6 +54,9 @@ func genRandomHistory(r *rt.Rand, n int) []gstep {
 
 func randConfig(r *rt.Rand) gconfig {
 	c := gconfig{Sender: r.Intn(4) > 0, DefaultExp: r.Intn(4) == 0}
+	if c.Sender && r.Intn(4) == 0 {
+		c.CancelAtSend = r.Range(1, 6)
+	}
 	switch r.Intn(5) {
 	case 0:
 		c.ComposeFailAt = r.Range(1, 12)
